@@ -3,46 +3,23 @@
 // (appends this test to the harness module in a scratch overlay of /repo and runs `cargo kani playback`).
 /// Test generated for harness `k_c05_lib::c05_q_from_sparse_2` 
 ///
-/// Check for `assertion`: "attempt to subtract with overflow"
+/// Check for `assertion`: ""from_sparse places every cell at its position, default elsewhere""
 
 #[test]
-fn kani_concrete_playback_c05_q_from_sparse_2_9710755814516528833() {
+fn kani_concrete_playback_c05_q_from_sparse_2_12025199998161678113() {
     let concrete_vals: Vec<Vec<u8>> = vec![
-        // 3221225471
-        vec![255, 255, 255, 191],
-        // 3221225473
-        vec![1, 0, 0, 192],
-        // 0ul
-        vec![0, 0, 0, 0, 0, 0, 0, 0],
-        // 3221225472
-        vec![0, 0, 0, 192],
-        // 3221225472
-        vec![0, 0, 0, 192],
-        // 0ul
-        vec![0, 0, 0, 0, 0, 0, 0, 0],
-    ];
-    kani::concrete_playback_run(concrete_vals, c05_q_from_sparse_2);
-}
-
-/// Test generated for harness `k_c05_lib::c05_q_from_sparse_2` 
-///
-/// Check for `assertion`: ""tight bounding box: end""
-
-#[test]
-fn kani_concrete_playback_c05_q_from_sparse_2_14929984520369396257() {
-    let concrete_vals: Vec<Vec<u8>> = vec![
-        // 4292870136
-        vec![248, 255, 223, 255],
-        // 1
-        vec![1, 0, 0, 0],
-        // 6ul
-        vec![6, 0, 0, 0, 0, 0, 0, 0],
-        // 4292870137
-        vec![249, 255, 223, 255],
-        // 0
-        vec![0, 0, 0, 0],
-        // 3ul
-        vec![3, 0, 0, 0, 0, 0, 0, 0],
+        // 3301189024
+        vec![160, 37, 196, 196],
+        // 4294967295
+        vec![255, 255, 255, 255],
+        // 72057594037927943ul
+        vec![7, 0, 0, 0, 0, 0, 0, 1],
+        // 3301189024
+        vec![160, 37, 196, 196],
+        // 4294967294
+        vec![254, 255, 255, 255],
+        // 72057594037927942ul
+        vec![6, 0, 0, 0, 0, 0, 0, 1],
     ];
     kani::concrete_playback_run(concrete_vals, c05_q_from_sparse_2);
 }
@@ -52,20 +29,20 @@ fn kani_concrete_playback_c05_q_from_sparse_2_14929984520369396257() {
 /// Check for `cover`: "end"
 
 #[test]
-fn kani_concrete_playback_c05_q_from_sparse_2_13283344756821735842() {
+fn kani_concrete_playback_c05_q_from_sparse_2_348446833740587392() {
     let concrete_vals: Vec<Vec<u8>> = vec![
-        // 2147483646
-        vec![254, 255, 255, 127],
-        // 2684354537
-        vec![233, 255, 255, 159],
-        // 0ul
-        vec![0, 0, 0, 0, 0, 0, 0, 0],
-        // 2147483648
-        vec![0, 0, 0, 128],
-        // 2684354538
-        vec![234, 255, 255, 159],
-        // 0ul
-        vec![0, 0, 0, 0, 0, 0, 0, 0],
+        // 3301189024
+        vec![160, 37, 196, 196],
+        // 2684354559
+        vec![255, 255, 255, 159],
+        // 2204539092595873944ul
+        vec![152, 152, 163, 227, 159, 24, 152, 30],
+        // 3301189024
+        vec![160, 37, 196, 196],
+        // 2684354560
+        vec![0, 0, 0, 160],
+        // 9223372036854775807ul
+        vec![255, 255, 255, 255, 255, 255, 255, 127],
     ];
     kani::concrete_playback_run(concrete_vals, c05_q_from_sparse_2);
 }
